@@ -663,6 +663,15 @@ func IntervalIndexGen(ck Chunk, opt *query.ProcessorOptions) {
 	times := chunk.Time()
 	tagIndexOffset := 0
 	stopTime := opt.StopTime()
+	if offset := opt.GetPromQueryOffset().Nanoseconds(); opt.IsPromQuery() && offset != 0 {
+		// the times of a prom query with an offset modifier are shifted by the offset,
+		// while StartTime/EndTime of the options are the time range of the raw samples.
+		if ascending {
+			_, stopTime = opt.Window(opt.EndTime + offset)
+		} else {
+			stopTime, _ = opt.Window(opt.StartTime + offset)
+		}
+	}
 
 	for i := range times {
 		// init first time stop window
